@@ -3,7 +3,7 @@
    attempts) on the model (Model/Exchange.v) and evaluates the property oracle
    (Model/ExchangeOracle.v) on what the implementation reported.
 
-   case "c03.hist":
+   case "c03.hist", "c03.window" (same format; c03.window: scripted histories at the edge of the unfolding window):
      args = scion im [call ...] [xdesc ...] oracle_on scriptseed
        call    = [reset [attempt ...]]
        attempt = [now0 ctx1 ref [dgram ...]]
@@ -141,7 +141,7 @@ Definition obs_call_ok (xs : list xdesc) (v : value) : bool :=
   end.
 
 Definition glue_C03 (k : string) (a o : list value) : option verdict :=
-  if is k "c03.hist" then
+  if is k "c03.hist" || is k "c03.window" then
     match a with
     | [VZ scion; VZ im; VL calls; VL xds; VZ oracle_on; VZ _] =>
         match parse_all parse_call calls, parse_all parse_xdesc xds with
@@ -228,12 +228,13 @@ Definition glue_C03 (k : string) (a o : list value) : option verdict :=
          (the exchanges concerned are judged by the relaxed clause of the oracle);
          a client that uses it for half of its exchanges violates the bound as a rule;
        - fresh_socket_per_request: consecutive requests of one call come from
-         different source ports (equal ports by chance are rare);
+         different source ports, also when the caller configured a local port (equal
+         ports by chance: about 1 in 10^4; at most 5 % tolerated);
        - the harness recorded (almost) every history it scripted *)
     match a with
     | [VZ n; VZ fbtx; VZ fbrx; VZ hist; VZ dropped; VZ pairs; VZ same] =>
         Some (relational (dropped * 20 <=? hist + 20)
-                ((fbtx * 2 <=? n) && (fbrx * 2 <=? n) && (same * 2 <=? pairs)))
+                ((fbtx * 2 <=? n) && (fbrx * 2 <=? n) && (same * 20 <=? pairs + 20)))
     | _ => None
     end
   else None.
